@@ -94,3 +94,91 @@ Theorem C01_export_reads_store : forall pol s p t l, do_get pol s p = (S200, PEx
   exists c, lookup s p = Some c /\ c_tag c = t /\ l = map snd (c_items c).
 Proof. exact get_export_reads_store. Qed.
 Print Assumptions C01_export_reads_store.
+
+(* ------------------------------------------------------------------------------------------------
+   Refinement: the multifilesystem layout (L1: Model/Fs.v + Model/StorageOps.v, the step programs whose
+   system-call sequences are compared with strace of the real server by checks/C02.py and checks/C12.py)
+   REFINES this ideal store (L0).  Repr.R s sigma: on every data path the directory tree s shows exactly
+   the collections, properties and items of sigma (a directory per collection, a file per item, the props
+   file; cache / history / temp / lock files unconstrained).  Everything below is qualified because
+   Fs.v and Store.v both define path / name / node. *)
+Require RV.Lib.Prog RV.Model.Fs RV.Model.StorageOps RV.Model.Repr.
+Require RV.Proofs.FsInv RV.Proofs.C12Final RV.Proofs.C02Units RV.Proofs.C02Final RV.Proofs.C02Req.
+Require RV.Proofs.ReprProofs RV.Proofs.ReprUnits RV.Proofs.ReprFinal RV.Proofs.ReprE2E RV.Proofs.ReprExample.
+
+(* The data view determines the L0 store (up to the order of association lists): two ideal stores
+   represented by one directory tree hold the same collections, tags, properties and items. *)
+Theorem C01_refine_functional : forall s s1 s2, Repr.R s s1 -> Repr.R s s2 -> store_inv s1 -> store_inv s2 ->
+  forall p, Repr.coll_equiv (lookup s1 p) (lookup s2 p).
+Proof. exact ReprProofs.R_functional. Qed.
+Print Assumptions C01_refine_functional.
+
+(* ... and every ideal store has a representing tree. *)
+Theorem C01_refine_total : forall sigma, Repr.R (Repr.fs_of sigma) sigma.
+Proof. exact ReprProofs.R_fs_of. Qed.
+Print Assumptions C01_refine_total.
+
+(* Temp directories, stale cache and history entries, lock files never matter. *)
+Theorem C01_refine_residue : forall s s' sigma, Repr.R s sigma -> Fs.abs_eq s' s -> Repr.R s' sigma.
+Proof. exact ReprProofs.R_abs. Qed.
+Print Assumptions C01_refine_residue.
+
+(* One storage operation u run as its step program, under EVERY fault oracle (calls failing, the process
+   killed anywhere): if the ideal effect of u on the tree represents sigma', then the run ends in a tree
+   that represents sigma or sigma' (nothing in between), and a normal end means sigma'. *)
+Theorem C01_refine_unit : forall lay u s0 sigma sigma' (o : Prog.oracle Fs.errno),
+  Repr.R s0 sigma -> C12Final.unit_wf u -> C12Final.dirs_exist (C02Final.unit_dirs02 u) s0 -> Fs.fs_inv_weak s0 ->
+  (forall s', C02Units.dpost (C02Units.ideal u s0) s' -> Repr.R s' sigma') ->
+  ReprFinal.refines sigma sigma' (StorageOps.machine_run o (StorageOps.unit_prog lay u) (Prog.start s0)).
+Proof. exact ReprFinal.refine_unit. Qed.
+Print Assumptions C01_refine_unit.
+
+(* The same for a whole request program (reads with cache side effects, then the operation). *)
+Theorem C01_refine_request : forall lay rq u s0 sigma sigma' (o : Prog.oracle Fs.errno),
+  Repr.R s0 sigma -> C02Req.unit_of rq = Some u -> C12Final.request_wf rq ->
+  C12Final.dirs_exist (C02Req.request_dirs02 rq) s0 -> Fs.fs_inv_weak s0 ->
+  (forall s', C02Units.dpost (C02Units.ideal u s0) s' -> Repr.R s' sigma') ->
+  ReprFinal.refines sigma sigma' (StorageOps.machine_run o (StorageOps.request_prog lay rq) (Prog.start s0)).
+Proof. exact ReprFinal.refine_request. Qed.
+Print Assumptions C01_refine_request.
+
+(* End to end with the handler functions of this model: whenever do_put / do_move / do_delete / the gate's
+   home creation change the ideal store from sigma to sigma', there is a storage operation whose step
+   program, from any tree representing sigma and under every fault oracle, ends in a tree representing
+   sigma or sigma', and sigma' on a normal end. *)
+Theorem C01_refine_put : forall cfg pol s sigma p ct b im inm sigma' resp,
+  Repr.R s sigma -> store_inv sigma -> Fs.fs_inv_weak s ->
+  do_put cfg pol sigma p ct b im inm = (sigma', resp) -> is_error (fst resp) = false ->
+  ReprE2E.served sigma sigma' s.
+Proof. exact ReprE2E.e2e_put. Qed.
+Print Assumptions C01_refine_put.
+
+Theorem C01_refine_move : forall pol s sigma p dr dout to ow sigma' resp,
+  Repr.R s sigma -> store_inv sigma -> Fs.fs_inv_weak s -> p <> to ->
+  do_move pol sigma p dr dout to ow = (sigma', resp) -> is_error (fst resp) = false ->
+  ReprE2E.served sigma sigma' s.
+Proof. exact ReprE2E.e2e_move. Qed.
+Print Assumptions C01_refine_move.
+
+Theorem C01_refine_delete : forall cfg pol s sigma p im sigma' resp,
+  Repr.R s sigma -> store_inv sigma -> Fs.fs_inv_weak s -> p <> [] ->
+  do_delete cfg pol sigma p im = (sigma', resp) -> is_error (fst resp) = false ->
+  ReprE2E.served sigma sigma' s.
+Proof. exact ReprE2E.e2e_delete. Qed.
+Print Assumptions C01_refine_delete.
+
+Theorem C01_refine_home : forall pol s sigma user,
+  Repr.R s sigma -> store_inv sigma -> Fs.fs_inv_weak s ->
+  ensure_home pol sigma user = sigma \/ ReprE2E.served sigma (ensure_home pol sigma user) s.
+Proof. exact ReprE2E.e2e_home. Qed.
+Print Assumptions C01_refine_home.
+
+(* Non-vacuity: the tree obtained by RUNNING home creation, MKCALENDAR and a PUT of the step programs from the
+   empty storage folder represents the store the handler model reaches on the same history. *)
+Theorem C01_refine_nonvacuous :
+  Repr.R ReprExample.ex_s3 ReprExample.ex_sig3 /\ store_inv ReprExample.ex_sig3 /\ Fs.fs_inv_weak ReprExample.ex_s3
+  /\ (exists c, lookup ReprExample.ex_sig3 [10; 20] = Some c /\ c_items c = [(100, ReprExample.ex_ob)])
+  /\ Fs.look ReprExample.ex_s3 (Repr.fp [10; 20; 100]) = Some (Fs.F (Repr.ocode ReprExample.ex_ob))
+  /\ Fs.look ReprExample.ex_s3 (Repr.fp [10; 20] ++ [Fs.Props]) = Some (Fs.F (Repr.pcode TCal [])).
+Proof. exact ReprExample.R_nonvacuous. Qed.
+Print Assumptions C01_refine_nonvacuous.
